@@ -8,7 +8,7 @@
     own list in the making uses; see C04_create_check_from), [served_ok] for pulls (honest, self-consistent registry),
     nothing for blob uploads, copies, deletes and start-up prunes.  [size_of] (content -> size) is arbitrary. *)
 From Coq Require Import List NArith Bool Permutation.
-From V Require Import Common.Bytes Store.Fs Store.Ops Store.ProofsAlist Store.ProofsNames Store.ProofsInv Store.ProofsOps Store.ProofsTop Store.ProofsMore Store.ProofsFix Store.ProofsRedo Store.ProofsRedo2 Store.ProofsShow.
+From V Require Import Common.Bytes Store.Fs Store.Ops Store.ProofsAlist Store.ProofsNames Store.ProofsInv Store.ProofsOps Store.ProofsTop Store.ProofsMore Store.ProofsFix Store.ProofsRedo Store.ProofsRedo2 Store.ProofsShow Store.Corr.
 Import ListNotations.
 Open Scope N_scope.
 
@@ -109,6 +109,16 @@ Theorem C04_fixblobs_idempotent : forall s,
   (fixed s -> fix_blobs (init s) = init s).
 Proof. intros s. split; [apply fix_blobs_idempotent | apply fix_blobs_noop]. Qed.
 Print Assumptions C04_fixblobs_idempotent.
+
+(** A blob upload whose body ends with a read error (Corr.[blob_aborted]: what the handler does then) leaves the store
+    exactly as it was: no byte that was received before the error is part of the store afterwards, so whatever is
+    created later is made of its own content only. *)
+Theorem C04_aborted_upload_no_trace : forall s d, rs (fst (blob_aborted s d)) = s.
+Proof.
+  intros [m b db] d. unfold blob_aborted. destruct (bget (dhex d) (MkStore m b db)); [reflexivity|].
+  cbn. reflexivity.
+Qed.
+Print Assumptions C04_aborted_upload_no_trace.
 
 Theorem C04_legacy_stores : forall size_of os hs ps,
   op_guards size_of empty_store os -> LInv size_of (legacy_move (exec_all size_of empty_store os) hs ps).
